@@ -150,6 +150,7 @@ def judge_msg(case):
             return [Failure(PROP, f'C20|classify|{type(e).__name__}', f'classification raised {type(e).__name__}')]
         if type(mo).__name__ != m.kind:
             return []           # C08's business
+        s0 = str(mo)
 
         def get(name):
             try:
@@ -183,6 +184,19 @@ def judge_msg(case):
                     fail('stories|wrong-ids', f'.stories exposes {[x.id for x in v]}, the message carries {exp_ids}', exp_ids,
                          [x.id for x in v])
         acc = ACCESS.get(m.kind, {})
+        if m.kind == 'StorySend' and m.payload:
+            # the very FIRST read of .story on a fresh object: content and items as sent
+            ok, v = get('story')
+            if ok and v is not None:
+                if canon(v.xml) != canon(m.payload[0]):
+                    fail('story|content-differs', 'first read: ' + str(xmlcmp.first_diff(canon(m.payload[0]), canon(v.xml))))
+                exp = [xmlcmp.item_id(i) for i in m.payload[0] if i.tag == 'item']
+                try:
+                    got = [i.id for i in v.items]
+                    if got != exp:
+                        fail('story.items|wrong-ids', f'first read: story.items exposes {got}, body carries {exp}', exp, got)
+                except Exception as e:
+                    fail(f'story.items|raised-{type(e).__name__}', str(e))
         if 'story' in acc:
             ok, v = get(acc['story'])
             if ok:
@@ -251,6 +265,8 @@ def judge_msg(case):
             repr(mo)
         except Exception as e:
             fail(f'repr|raised-{type(e).__name__}', str(e))
+        if str(mo) != s0:
+            fail('accessors|message-modified-by-reading', 'reading the accessors / inspect() changed str(message)', s0, str(mo))
         if msg_view(mo) != view1:
             fail('accessors|changed-by-inspect', 'accessors give a different view after inspect() / repr()')
         # ... and after the message was merged and the running order edited further: the
